@@ -214,20 +214,40 @@ func (pf *pfunc) condFacts(n *vn, truth bool, why string, fs *factSet, depth int
 			return
 		}
 		cand := -1
+		var cands []int
 		for i, e := range ph.Edges {
 			if c, ok := e.(*ssa.Const); ok && c.Value != nil && c.Value.Kind() == constant.Bool {
 				if constant.BoolVal(c.Value) != truth {
 					continue
 				}
 			}
-			if cand >= 0 {
-				return
-			}
-			cand = i
+			cands = append(cands, i)
 		}
-		if cand < 0 {
+		if len(cands) > 1 && len(cands) <= 4 && depth < 4 {
+			// several edges could have produced the value: those whose way in contradicts what is known
+			// here were not taken
+			var live []int
+			for _, i := range cands {
+				tmp := &factSet{}
+				for _, f := range fs.facts {
+					tmp.add(f)
+				}
+				p := ph.Block().Preds[i]
+				pf.blockFacts(p, tmp)
+				pf.edgeFacts(p, ph.Block(), tmp)
+				if _, isConst := ph.Edges[i].(*ssa.Const); !isConst {
+					pf.condFacts(pf.get(ph.Edges[i]), truth, why, tmp, depth+2)
+				}
+				if !pf.inconsistent(tmp) {
+					live = append(live, i)
+				}
+			}
+			cands = live
+		}
+		if len(cands) != 1 {
 			return
 		}
+		cand = cands[0]
 		pred := ph.Block().Preds[cand]
 		pf.blockFacts(pred, fs)
 		pf.edgeFacts(pred, ph.Block(), fs)
@@ -1965,7 +1985,7 @@ func (pe *PEngine) clausesOf(fn *ssa.Function) []clause {
 					taut = true // contradictory conjunction: its negation says nothing
 				}
 			}
-			if taut || len(lits) == 0 || len(lits) > 5 {
+			if taut || len(lits) == 0 || len(lits) > 8 {
 				continue
 			}
 			okAll := true
@@ -2017,7 +2037,139 @@ func (pe *PEngine) clausesOf(fn *ssa.Function) []clause {
 			out = append(out, cl)
 		}
 	}
+	out = pe.saturateClauses(fn, out)
 	pe.clauses[fn] = out
+	return out
+}
+
+// saturateClauses adds resolvents: from  A or x  and  B or not x  follows  A or B. Unit propagation at a
+// call site cannot split on a literal neither side of which is known there (a named boolean that folds
+// "tx != nil" into two different tests); the resolvent no longer mentions it. Bounded: resolvents of at
+// most 5 literals, at most 300 clauses, 3 rounds; clauses subsumed by a shorter one are dropped.
+func (pe *PEngine) saturateClauses(fn *ssa.Function, in []clause) []clause {
+	if len(in) < 2 {
+		return in
+	}
+	pf := pe.pf(fn)
+	type nlit struct {
+		key   string
+		truth bool
+		c     condAt
+	}
+	norm := func(l condAt) nlit {
+		k, t := pf.get(l.v).key, l.truth
+		if strings.HasPrefix(k, "bin==(") {
+			k, t = "bin!=("+strings.TrimPrefix(k, "bin==("), !t
+		}
+		return nlit{k, t, l}
+	}
+	type ncl struct {
+		lits map[string]nlit // by key
+		id   string
+	}
+	mk := func(ls []nlit) *ncl {
+		m := map[string]nlit{}
+		for _, l := range ls {
+			if prev, dup := m[l.key]; dup && prev.truth != l.truth {
+				return nil // tautology
+			}
+			m[l.key] = l
+		}
+		var ks []string
+		for k, l := range m {
+			ks = append(ks, fmt.Sprintf("%v:%s", l.truth, k))
+		}
+		sort.Strings(ks)
+		return &ncl{m, strings.Join(ks, "|")}
+	}
+	var set []*ncl
+	have := map[string]bool{}
+	subsumed := func(c *ncl) bool {
+		for _, o := range set {
+			if len(o.lits) > len(c.lits) {
+				continue
+			}
+			all := true
+			for k, l := range o.lits {
+				if x, ok := c.lits[k]; !ok || x.truth != l.truth {
+					all = false
+					break
+				}
+			}
+			if all {
+				return true
+			}
+		}
+		return false
+	}
+	add := func(c *ncl) bool {
+		if c == nil || have[c.id] || subsumed(c) {
+			return false
+		}
+		have[c.id] = true
+		set = append(set, c)
+		return true
+	}
+	for _, cl := range in {
+		var ls []nlit
+		for _, l := range cl {
+			ls = append(ls, norm(l))
+		}
+		add(mk(ls))
+	}
+	for round := 0; round < 3 && len(set) < 300; round++ {
+		n := len(set)
+		grew := false
+		for i := 0; i < n && len(set) < 300; i++ {
+			for j := i + 1; j < n && len(set) < 300; j++ {
+				a, b := set[i], set[j]
+				pivot, count := "", 0
+				for k, l := range a.lits {
+					if x, ok := b.lits[k]; ok && x.truth != l.truth {
+						pivot = k
+						count++
+					}
+				}
+				if count != 1 {
+					continue
+				}
+				var ls []nlit
+				for k, l := range a.lits {
+					if k != pivot {
+						ls = append(ls, l)
+					}
+				}
+				for k, l := range b.lits {
+					if k != pivot {
+						ls = append(ls, l)
+					}
+				}
+				r := mk(ls)
+				if r == nil || len(r.lits) > 7 || len(r.lits) == 0 {
+					continue
+				}
+				if add(r) {
+					grew = true
+				}
+			}
+		}
+		if !grew {
+			break
+		}
+	}
+	var out []clause
+	for _, c := range set {
+		var ks []string
+		for k := range c.lits {
+			ks = append(ks, k)
+		}
+		sort.Strings(ks)
+		var cl clause
+		for _, k := range ks {
+			cl = append(cl, c.lits[k].c)
+		}
+		out = append(out, cl)
+	}
 	return out
 }
 
